@@ -136,6 +136,18 @@ def run(chk):
                 k, name, off, width, fk = rng.choice(cands)
                 vsrc, vexp, vcls = assignment_value(rng, k, name, width, fk, "valid")
                 seq.append((d, (k, name, off, width, fk, vsrc, vexp, vcls)))
+            if seq and rng.random() < 0.3:
+                # finally re-type an outer layer: the edits made to the layers inside it must survive in the written bytes
+                dmax = max(d for d, _ in seq)
+                outer = [d for d in range(dmax) if stack[d] in ("eth", "vlan", "ipv4", "ipv6")]
+                if outer:
+                    d = rng.choice(outer)
+                    nm = {"eth": "type", "vlan": "type", "ipv4": "proto", "ipv6": "nextheader"}[stack[d]]
+                    pr = [p for p in props if p[0] == stack[d] and p[1] == nm]
+                    if pr:
+                        k, name, off, width, fk = pr[0]
+                        v = rng.choice([0x88B5, 0x0806, 0xFFFF, 1, 0]) & ((1 << width) - 1)
+                        seq.append((d, (k, name, off, width, fk, lit(v), v, "valid")))
             if seq:
                 jobs.append((stack, None, seq))
         cases = []
@@ -299,8 +311,10 @@ def run(chk):
                               {"frame_hex": frame.hex(), "written_hex": written.hex() if written else None, "stack": stack,
                                "src": next(c.src for c in cases if c.id == cid)})
                 continue
-            # (d) re-read after re-parsing
-            if written is not None:
+            # (d) re-read after re-parsing (not when the sequence re-typed an outer layer: reading an inner layer by a name that
+            # contradicts the new type is unspecified)
+            retyped = any(x[1] in ("type", "proto", "nextheader") and any(d2 > d for d2, _ in seq) for d, x in seq)
+            if written is not None and not retyped:
                 from . import pktscript
                 ok_layers = True
                 cur = pktscript.parse_layer("eth", written, 0)
@@ -335,5 +349,66 @@ def run(chk):
                     chk.violation("reread|%s.%s" % (x[0], x[1]), "%s.%s reads %s after writing and re-opening, assigned %s" % (x[0], x[1], show(g), x[5]),
                                   {"frame_hex": frame.hex(), "written_hex": written.hex()})
                     break
+        # ---- an assignment that is rejected with a runtime error leaves the packet unchanged: the packet is looked at
+        # afterwards through the end filter, which still runs after a failed action
+        BAD = {"mac": ["aa:bb:cc:dd:ee:gg", "aa:bb:cc:dd:ee", "aa:bb:cc:dd:ee:ff:00", "aa:bb:cc:dd:ee:1ff", "aa:bb:cc:dd:zz:ff", "aa:bb:cc:dd:ee:", "11-22-33-44-55-66", ""],
+               "ip4": ["192.168.7.256", "172.16.5.x", "10.0.0", "1.2.3.4.5", "10.999.1.1", "10.0.-1.1", "1.2..4", "10.0.0.1.", "a.b.c.d", ""],
+               "ip6": ["1:2:3:4:5:6:7:zz", "1:2:3:4:5:6:7:8:9", "1::2::3", "12345::1", "1:2:3:4:5:6:7", "fe80::1::", "::g", "1:2:3:4:5:6:7:8:", "2001:db8::10000", ""]}
+        n_bad = 0
+        for kind, name, off, width, fk in props:
+            stack = next(st for st in STACKS if kind in st and (fk != "ip6" or True))
+            d = stack.index(kind)
+            if fk in BAD:
+                values = [lit(t) for t in BAD[fk]]
+            elif fk == "int":
+                values = [lit(-1), lit(1 << width), lit((1 << 63) - 1), "\"5\"", "null"]
+            else:
+                values = ["1", "\"true\"", "null"]
+            if quick:
+                values = values[:6] if fk in BAD else values[:2]
+            for vsrc in values:
+                frame, starts = build_stack(rng, stack)
+                if len(starts) != len(stack):
+                    continue
+                inp = os.path.join(work, "bad.pcap")
+                outp = os.path.join(work, "bad-out.pcap")
+                script = os.path.join(work, "bad.p2")
+                if os.path.exists(outp):
+                    os.unlink(outp)
+                with open(inp, "wb") as f:
+                    f.write(pkt.pcap_file([(11, 22, frame)]))
+                with open(script, "w") as f:
+                    f.write("let saved = null;\n@ true { saved = $0; %s.%s = %s; eprintln(\"ACCEPTED\"); }\n@ end { pcap_write(pcap_open(%s, \"w\"), saved); }\n" % (
+                        path_expr("($0)", stack, d), name, vsrc, lit(outp)))
+                with open(inp, "rb") as fi:
+                    rr = core.run_binary(["-s", script], stdin_file=fi, release=(n_bad % 2 == 1), timeout=30)
+                n_bad += 1
+                if rr["timeout"]:
+                    chk.inconc("timeout")
+                    continue
+                err = rr["err"].decode("utf-8", "replace")
+                if core.crashed(rr):
+                    chk.violation("crash|%s.%s" % (kind, name), "%s.%s = %s crashes the interpreter: %s" % (kind, name, vsrc, err[-200:]), {"frame_hex": frame.hex()})
+                    continue
+                if "ACCEPTED" in err or "Runtime error" not in err:
+                    chk.observed((kind, name, "invalid-accepted-or-reduced"))
+                    chk.count("invalid_values_stored_reduced_or_accepted")
+                    continue      # stored reduced: judged by the value sweeps above
+                chk.observed((kind, name, "invalid-rejected"))
+                chk.count("rejected_assignments_checked_for_an_unchanged_packet")
+                try:
+                    hdr, recs, _ = pkt.parse_pcap(open(outp, "rb").read())
+                    written = recs[0][4] if recs else None
+                except OSError:
+                    written = None
+                if written is None:
+                    chk.inconc("end filter did not write the packet")
+                    continue
+                if written != frame:
+                    k_ = next((i for i in range(min(len(frame), len(written))) if frame[i] != written[i]), min(len(frame), len(written)))
+                    chk.violation("rejected-but-changed|%s.%s" % (kind, name),
+                                  "%s.%s = %s is rejected with a runtime error, but the packet changed at offset %d (layer starts %s): %s -> %s" % (
+                                      kind, name, vsrc, k_, starts, frame[max(0, k_ - 2):k_ + 6].hex(), written[max(0, k_ - 2):k_ + 6].hex()),
+                                  {"frame_hex": frame.hex(), "written_hex": written.hex(), "value": vsrc})
     finally:
         shutil.rmtree(work, ignore_errors=True)
